@@ -45,7 +45,7 @@ impl Property for C14 {
         "C14"
     }
     fn rule(&self) -> &'static str {
-        "gen words: every 16-bit header word w (key = w>>8, 256 words per key); gen triples: every (kind, label type, length) triple (key = kind*4+lt, 4096 lengths per key). gen decap-view: every word as the first two bytes of buffers of 2..8 bytes, of the announced packet length -1/+0/+1 and of 4100 bytes (zero or 0xA5 filled): decap never panics, answers Padding consuming the buffer, and the peek answers ErrHeaderRead, exactly for the padding pattern. gen emit-view: the encoder as used by encap / encap_ext / encap_frag over buffers 4088..=4104 and up to 70000 bytes: the header word of every reported packet decodes to the reported length - 2, the reported kind and the label type written (also when the preceding packet carried the same label, and along runs of one label under re-use limits 0,1,2,3,5: the GSE length must account for exactly the label bytes the announced type implies); in decap-view a long-lived receiver also sees a padding buffer before every short buffer and must not answer Padding for the next header word. A case is non-trivial when the word / triple is not the padding pattern (it exercises decode+re-encode); fingerprint = the word or the triple."
+        "gen words: every 16-bit header word w (key = w>>8, 256 words per key); gen triples: every (kind, label type, length) triple (key = kind*4+lt, 4096 lengths per key). gen decap-view: every word as the first two bytes of buffers of 2..8 bytes, of the announced packet length -1/+0/+1 and of 4100 bytes (zero or 0xA5 filled): decap never panics, answers Padding consuming the buffer, and the peek answers ErrHeaderRead, exactly for the padding pattern. gen emit-view: the encoder as used by encap / encap_ext / encap_frag over buffers 4088..=4104 and up to 70000 bytes: the header word of every reported packet decodes to the reported length - 2, the reported kind and the label type written (also when the preceding packet carried the same label, and along runs of one label under re-use limits 0,1,2,3,5: the GSE length must account for exactly the label bytes the announced type implies); in decap-view a train whose continuation header words carry every combination of label-type bits is either refused at that packet or delivered intact (the GSE length used is the 12-bit field), and a long-lived receiver also sees a padding buffer before every short buffer and must not answer Padding for the next header word. A case is non-trivial when the word / triple is not the padding pattern (it exercises decode+re-encode); fingerprint = the word or the triple."
     }
     fn gens(&self, _cx: &Cx) -> Vec<Gen> {
         vec![Gen { name: "words", count: 256, exhaustive: true }, Gen { name: "triples", count: 16, exhaustive: true }, Gen { name: "decap-view", count: 256, exhaustive: true }, Gen { name: "emit-view", count: 4 * 3 + 4, exhaustive: true }]
@@ -111,6 +111,47 @@ impl Property for C14 {
                 // one receiver lives through the whole key and sees a padding buffer before every word: what it answered
                 // for padding must not stick to the next header word
                 let mut shared = plain_dec(2, 16, 4, 16, wire::MandTable::none());
+                // reassembly view: the GSE length of a continuation packet is the 12-bit field, whatever its label-type
+                // bits say: a train whose intermediate / end header words carry label type lt_i / lt_e (every
+                // combination, fragment id = key) is either refused at that packet or delivers exactly the PDU
+                {
+                    let fr = crate::refcrc::FastRef::new();
+                    let id = key as u8;
+                    let pdu: Vec<u8> = (0..40u8).map(|i| i.wrapping_mul(3) ^ id).collect();
+                    // (an intermediate header word with label type 00 is the padding pattern: not a continuation packet)
+                    for lt_i in 1..4u16 {
+                        for lt_e in 0..4u16 {
+                            let mut t = crate::hostile::mk_train(&fr, 2, &[], id, 0x0800, &pdu, &[10, 25]);
+                            t[1][0] = (t[1][0] & 0xCF) | ((lt_i as u8) << 4);
+                            t[2][0] = (t[2][0] & 0xCF) | ((lt_e as u8) << 4);
+                            let mut d = plain_dec(2, 64, 2, 64, wire::MandTable::none());
+                            let mut refused = false;
+                            let mut delivered = false;
+                            for p in &t {
+                                rep.eval();
+                                match dec_guard(&mut d, p) {
+                                    Ok(Ok((DecapStatus::CompletedPkt(b, m), n))) => {
+                                        delivered = n == p.len() && m.pdu_len() == pdu.len() && b[..pdu.len()] == pdu[..];
+                                    }
+                                    Ok(Ok((DecapStatus::FragmentedPkt(_), n))) if n == p.len() => {}
+                                    Ok(Err(_)) if wire::lt_of_word(u16::from_be_bytes([p[0], p[1]])) != 3 && !refused => {
+                                        refused = true;
+                                        break;
+                                    }
+                                    other => {
+                                        rep.violation("C14", "reassembly-view:packet".into(), || format!("train with continuation label-type bits {}/{} (fragment id {}): packet {} -> {}", lt_i, lt_e, id, crate::rng::hex_short(p, 16), dec_res_str(&other)), || replay(key));
+                                        refused = true;
+                                        break;
+                                    }
+                                }
+                            }
+                            if !refused && !delivered {
+                                rep.violation("C14", "reassembly-view:accepted-but-not-delivered".into(), || format!("train with continuation label-type bits {}/{} (fragment id {}): every packet was accepted but the PDU was not delivered intact", lt_i, lt_e, id), || replay(key));
+                            }
+                            rep.nontrivial(0x6_0000_0000 + (key << 8) + (lt_i << 2 | lt_e) as u64);
+                        }
+                    }
+                }
                 for lo in 0..256u64 {
                     let w = ((key << 8) | lo) as u16;
                     let pad = wire::is_padding_word(w);
